@@ -28,6 +28,7 @@ def opsXarr (op : String) (args : List SExp) : Option String :=
           packetGenerator d d.root {} ⟨0, TRIM_THRESHOLD⟩ (initFile chunks total))
         let firstErr := runs.flatten.findSome? (fun e => match e with | .raised err => some err | _ => none)
         match firstErr with
+        | some Err.unsupported => "unsupported"
         | some err => showErr err
         | none =>
           let pkts : List (List DsPacket) := runs.map (fun evs => evs.filterMap (fun e => match e with
